@@ -1,12 +1,13 @@
 #!/bin/sh
-# Builds every check binary once (warms the Go build cache). Offline.
+# Builds the binaries of every check claimed in MANIFEST.json (plus helpers) once, which also
+# warms the Go build cache. Offline.
 cd "$(dirname "$0")" || exit 2
 export GOFLAGS=-mod=mod GOPROXY=off GOSUMDB=off GOTOOLCHAIN=local
-mkdir -p bin evidence replays
-cp /repo/go.sum go.sum.repo 2>/dev/null && cat go.sum.repo go.sum.extra 2>/dev/null | sort -u > go.sum; rm -f go.sum.repo
+mkdir -p bin evidence replays .work
 rc=0
-for d in cmd/*/; do
-  n=$(basename "$d")
-  go build -tags verif -o "bin/$n" "./$d" || rc=2
+for id in $(jq -r '.checks[].property_id' MANIFEST.json | tr 'A-Z' 'a-z') genworker; do
+  if [ -d "cmd/$id" ]; then
+    go build -tags verif -o "bin/$id" "./cmd/$id" || rc=2
+  fi
 done
 exit $rc
